@@ -45,6 +45,14 @@ def fixed_layouts(stmts, quick):
                 L.append((f"cont:{mk}", i, {"split": {i: [(t, "plain")]}, "fixed_cont_char": mk}))
                 if (i + t) % 5 == 0:
                     L.append((f"cont_comment_between:{mk}", i, {"split": {i: [(t, "comment_between")]}, "fixed_cont_char": mk}))
+    # two statements on one line: after the ';' the next statement starts anywhere, also directly, and its first letter
+    # (call, do, character, double, class, contains, data) is no comment flag there
+    for i in code:
+        if i + 1 < len(stmts) and stmts[i + 1].kind == "code" and not stmts[i + 1].toks[0][2].isdigit():
+            if quick and i % 2:
+                continue
+            L.append(("join", i, {"join_next": {i}}))
+            L.append(("join_tight", i, {"join_next": {i}, "join_sep": ";"}))
     L.append(("case:upper", None, {"case": "upper"}))
     L.append(("case:lower", None, {"case": "lower"}))
     L.append(("crlf", None, {"eol": "\r\n"}))
